@@ -15,6 +15,7 @@ import pandas as pd
 
 from rv import core, excelgen, monitors, reach
 
+ANCHORS = ['run', 'read_table', 'write_workbook', 'density_and_hist']      # functions the property is anchored in: never entered => inconclusive
 LEVEL = 'exploration'
 LEVEL_TEXT = 'End-to-end runs of the real workflow on generated well-formed workbooks x options with an output-workbook integrity oracle, figure-file oracle and a logical step budget (sys.monitoring) for termination; write/read round trip on arbitrary tables; the shipped example in the thorough tier. Exploration.'
 TECHNIQUE = 'end-to-end run of the real workflow under an output-workbook integrity oracle, figure-file oracle and logical step budget'
